@@ -39,7 +39,7 @@ class ScalarProductFlow(FlowInterface.FlowInterface):
     n : int, optional
         The value of the harmonic. Default is 2.
     weight : str, optional
-        The weight used for calculating the flow. Default is :code:`pt2`.
+        The weight used for calculating the flow. Default is :code:`pT2`.
     pseudorapidity_gap : float, optional
         The pseudorapidity gap used for dividing the particles into sub-events.
         Default is 0.0.
@@ -76,8 +76,8 @@ class ScalarProductFlow(FlowInterface.FlowInterface):
         >>> jetscape_event = Jetscape(JETSCAPE_FILE_EVENT_PLANE).particle_objects_list()
         >>>
         >>> # Create flow objects for v2, weighted with pT**2 and v3 weighted with pT**2
-        >>> flow2 = ScalarProductFlow(n=2, weight="pt2",pseudorapidity_gap=0.1)
-        >>> flow3 = ScalarProductFlow(n=3, weight="pt2",pseudorapidity_gap=0.1)
+        >>> flow2 = ScalarProductFlow(n=2, weight="pT2",pseudorapidity_gap=0.1)
+        >>> flow3 = ScalarProductFlow(n=3, weight="pT2",pseudorapidity_gap=0.1)
         >>>
         >>> # Calculate the integrated flow with error
         >>> v2, v2_error = flow2.integrated_flow(jetscape_flow,jetscape_event)
@@ -87,7 +87,7 @@ class ScalarProductFlow(FlowInterface.FlowInterface):
     """
 
     def __init__(
-        self, n: int = 2, weight: str = "pt2", pseudorapidity_gap: float = 0.0
+        self, n: int = 2, weight: str = "pT2", pseudorapidity_gap: float = 0.0
     ) -> None:
         """
         Initialize the ScalarProductFlow object.
@@ -97,7 +97,7 @@ class ScalarProductFlow(FlowInterface.FlowInterface):
         n : int, optional
             The value of the harmonic. Default is 2.
         weight : str, optional
-            The weight used for calculating the flow. Default is "pt2".
+            The weight used for calculating the flow. Default is "pT2".
         pseudorapidity_gap : float, optional
             The pseudorapidity gap used for dividing the particles into sub-events.
             Default is 0.0.
